@@ -154,13 +154,16 @@ theorem cross_protocol_ascii_is_instance (k1 k2 : Key) (h : sameForMatching k1 k
     (the character itself, `Print [c]`) and every kitty report `CSI c [;1[:1][;c]] u` (bare / with the
     modifier field / with the event type / with or without the text) decode to events with the same
     `String()` that match exactly the same bindings, for all binding runes and masks.
-    The two textless-form hypotheses are needed: see `Witness/F209.lean` for 'ß'. -/
+    The last textless-form hypothesis speaks only of lower-case runes with an upper case of their own
+    (since the repair of F209, rule 6 of `Matches` does not fire for a rune that is its own upper case, so
+    'ß' and the other 830 such letters are covered); Go's tables violate it only for the 27 title-case
+    letters ᾈ … ῼ, which are what Shift + ᾀ … produces, not keys. -/
 theorem cross_protocol_char_plain (u : Uni) (c : Int) (f : Form)
     (hv : validRune c = true) (hdel : c ≠ 127) (hup : u.isUpper c = false)
     (hfun : lookup2 (c, 117) functional = none)
     (hf : f.withShifted = false ∧ f.withBase = false)
     (hfffd : f.withText = false → c ≠ 0xFFFD)
-    (hnolow : f.withText = false → ∀ r, u.isLower r = true → u.toUpper r ≠ c) :
+    (hnolow : f.withText = false → ∀ r, u.isLower r = true → u.toUpper r ≠ r → u.toUpper r ≠ c) :
     let kL := decodeKey u (.print [c])
     let kK := decodeKey u (kittySeq c 117 { key := c, text := [c] } f)
     keyString u kL = keyString u kK ∧ ∀ b m, «matches» u kL b m = «matches» u kK b m := by
@@ -188,32 +191,33 @@ theorem cross_protocol_char_plain (u : Uni) (c : Int) (f : Form)
   · left; simp
 
 example : validRune 233 = true ∧ latinUni.isUpper 233 = false ∧ lookup2 (233, 117) functional = none ∧
-    (∀ r, latinUni.isLower r = true → latinUni.toUpper r ≠ 233) := by
+    (∀ r, latinUni.isLower r = true → latinUni.toUpper r ≠ r → latinUni.toUpper r ≠ 233) := by
   refine ⟨by decide, by decide, by decide +kernel, ?_⟩
-  intro r hl
+  intro r hl _
   simp only [latinUni, asciiUni, Bool.or_eq_true, decide_eq_true_eq] at hl ⊢
   split
   · omega
   · split <;> omega
 
 example : validRune 97 = true ∧ asciiUni.isUpper 97 = false ∧ lookup2 (97, 117) functional = none ∧
-    (∀ r, asciiUni.isLower r = true → asciiUni.toUpper r ≠ 97) := by
+    (∀ r, asciiUni.isLower r = true → asciiUni.toUpper r ≠ r → asciiUni.toUpper r ≠ 97) := by
   refine ⟨by decide, by decide, by decide +kernel, ?_⟩
-  intro r hl
+  intro r hl _
   simp only [asciiUni, decide_eq_true_eq] at hl ⊢
   split <;> omega
 
 /-- **cross_protocol_char_shift.** Shift + the cased letter key `c` (`C` its upper case): legacy
     `Print [C]` and every kitty report `CSI c:C ; 2[:1] [; C] u` (the shifted code and the modifier field
     present; event type and text optional).  Without the text field the decoder's Shift-text
-    work-around must supply it: that needs `IsPrint c` and `ToUpper c = C`. -/
+    work-around supplies it from the reported shifted code (since the repair of F210; before, it invented
+    `ToUpper c`, which is not `C` for i/İ, k/K, ß/ẞ): that needs `IsPrint c` and `IsPrint C`. -/
 theorem cross_protocol_char_shift (u : Uni) (c C : Int) (f : Form)
     (hv : validRune c = true) (hV : validRune C = true) (hdel : c ≠ 127)
     (hup : u.isUpper C = true) (hlow : u.toLower C = c)
     (hfun : lookup2 (c, 117) functional = none)
     (hf : f.withShifted = true ∧ f.withBase = false ∧ f.hasMods = true)
     (hprint : f.withText = false → u.isPrint c = true)
-    (htoup : f.withText = false → u.toUpper c = C) :
+    (hprintC : f.withText = false → u.isPrint C = true) :
     let kL := decodeKey u (.print [C])
     let kK := decodeKey u (kittySeq c 117 { key := c, mods := shiftBit, shifted := C, text := [C] } f)
     keyString u kL = keyString u kK ∧ ∀ b m, «matches» u kL b m = «matches» u kK b m := by
@@ -229,20 +233,20 @@ theorem cross_protocol_char_shift (u : Uni) (c C : Int) (f : Form)
       (by intro p hp; simp only [List.mem_singleton] at hp; subst hp; exact ⟨validRune_inRune hV, hV⟩)
       (Or.inr ⟨hfun, rfl⟩) (by omega) (by omega)]
     obtain ⟨ws, wb, wm, we, wt⟩ := f
-    simp only [Form.hasMods] at hf hprint htoup
+    simp only [Form.hasMods] at hf hprint hprintC
     obtain ⟨rfl, rfl, hmods⟩ := hf
     have hs : stripLocks shiftBit = shiftBit := by decide
     have hstr : strOfRune C = [C] := by simp [strOfRune, hV]
     cases wt
     · have hp := hprint rfl
-      have ht := htoup rfl
+      have ht := hprintC rfl
       cases wm <;> cases we <;> simp_all [kittyExpected, shiftFix, Form.hasMods]
     · cases wm <;> cases we <;> simp_all [kittyExpected, shiftFix, Form.hasMods]
   rw [hL, hK]
   exact ⟨rfl, fun _ _ => rfl⟩
 
 example : validRune 233 = true ∧ validRune 201 = true ∧ latinUni.isUpper 201 = true ∧ latinUni.toLower 201 = 233 ∧
-    lookup2 (233, 117) functional = none ∧ latinUni.isPrint 233 = true ∧ latinUni.toUpper 233 = 201 := by
+    lookup2 (233, 117) functional = none ∧ latinUni.isPrint 233 = true ∧ latinUni.isPrint 201 = true := by
   refine ⟨by decide, by decide, by decide, by decide, by decide +kernel, by decide, by decide⟩
 
 /-- **cross_protocol_char_alt.** Alt + the character key `c`: legacy `ESC c` and the kitty reports
@@ -320,10 +324,11 @@ theorem cross_protocol_char_plain_checked (u : Uni) (dom : List Int) (c : Int) (
   · rw [hwt] at hok
     simp [violated, hypPlain, noLowerMapsTo] at hok
     obtain ⟨hv, hdel, hup, hfun, hfffd, hno⟩ := hok
-    refine cross_protocol_char_plain u c f hv hdel hup hfun hf (fun _ => hfffd) (fun _ r hl => ?_)
+    refine cross_protocol_char_plain u c f hv hdel hup hfun hf (fun _ => hfffd) (fun _ r hl hne => ?_)
     by_cases hr : r ∈ dom
-    · rcases hno r hr with h | h
+    · rcases hno r hr with (h | h) | h
       · rw [h] at hl; cases hl
+      · exact absurd h hne
       · exact h
     · rw [hdom r hr] at hl; cases hl
   · rw [hwt] at hok
@@ -332,7 +337,8 @@ theorem cross_protocol_char_plain_checked (u : Uni) (dom : List Int) (c : Int) (
     exact cross_protocol_char_plain u c f hv hdel hup hfun hf (fun h => by rw [hwt] at h; cases h) (fun h => by rw [hwt] at h; cases h)
 
 example : violated (hypPlain latinUni [97, 233, 201, 223] 233 false) = [] := by decide +kernel
-example : violated (hypPlain latinUni [97, 233, 201, 223] 223 false) = ["noLowerMapsTo"] := by decide +kernel
+example : violated (hypPlain latinUni [97, 233, 201, 223] 223 false) = [] := by decide +kernel
+example : violated (hypPlain latinUni [97, 233, 201, 223] 201 false) = ["notUpper", "noLowerMapsTo"] := by decide +kernel
 
 /-- Run-time form of `cross_protocol_char_shift` (`hyp shift` ops). -/
 theorem cross_protocol_char_shift_checked (u : Uni) (c C : Int) (f : Form)
